@@ -85,6 +85,14 @@ fn alphabet() -> Vec<(String, Call)> {
         c.cfg.precision = 2;
         v.push(("lpc_order1_prec2".into(), Call::Encode(c)));
     }
+    // LPC as the only predictor (every change of the analysis shows in the bytes), at the extreme orders,
+    // on several inputs
+    for (name, bi, order) in [("lpc_only_order10_stereo16", 1usize, 10u8), ("lpc_only_order24_stereo16", 1, 24), ("lpc_only_order1_stereo16", 1, 1), ("lpc_only_order24_stereo24_loud", 2, 24), ("lpc_only_order24_mono8", 0, 24), ("lpc_only_order24_three_ch12", 3, 24), ("order24_stereo24_inverted", 5, 24)] {
+        let mut c = b(bi);
+        c.cfg.lpc_order = order;
+        c.cfg.use_fixed = !name.starts_with("lpc_only");
+        v.push((name.into(), Call::Encode(c)));
+    }
     // window variants on one input (same block size so that window caches collide)
     let mut w = b(0);
     w.input.bps = 16;
